@@ -38,7 +38,15 @@ for d in sorted(glob.glob(os.path.join(HERE, "..", "seeded", "*"))):
     fired = cr.get("fired", [])
     tgt = m.get("property", os.path.basename(d)[:3])
     esc = lambda s: str(s).replace("\n", " ").replace("|", "\\|")[:160]
-    out.append("| %s | %s | %s | %s | %s | %s |" % (os.path.basename(d), tgt, esc(m.get("summary", "")), esc(m.get("needs", "")), ", ".join(fired) or "-", "yes" if tgt in fired else ("**no**" if cr else "not run")))
+    rt = m.get("recheck_target_only")
+    if rt:
+        # a later re-run of the target check with a newer harness overrides the full evaluation for the target column
+        caught = bool(rt.get("fired"))
+        if not caught and tgt in fired:
+            fired = [f for f in fired if f != tgt]
+    else:
+        caught = tgt in fired
+    out.append("| %s | %s | %s | %s | %s | %s |" % (os.path.basename(d), tgt, esc(m.get("summary", "")), esc(m.get("needs", "")), ", ".join(fired) or "-", "yes" if caught else ("**no** (documented exception, DESIGN 8.1)" if cr else "not run")))
 out += ["", "## 3. Independently written property-preserving changes (seeded_silent/<id>/)", "",
         "Behaviour-changing edits that keep the target property true; evaluated on scratch copies against all 20 monitors (`run_scratch.py --patch`). `target silent` must be yes; flags by other properties were examined one by one (DESIGN 8.2).", "",
         "| id | target | what was changed | flagged by (all monitors, first evaluation) | target silent (final harness) |", "|---|---|---|---|---|"]
